@@ -16,6 +16,13 @@ Channels:
 Application (`SdRunner`): `change_equation` per constant, `change_points` per graphical function,
 `change_runspecs` (mechanism fact `runspecStartApplied`: the start time reaches `model.starttime`, or a
 misspelt attribute).
+
+Wave 2: the manager as a small heap machine (`MState`, `mstep`): the manager's `base_constants` /
+`base_points` dictionaries are the one shareable cell; `add_scenarios` / `load_scenarios` give a scenario
+without an own `constants` (`points`) block a FRESH dictionary filled from the base values, or (mechanism
+fact `scenarioOwnsDicts = false`) the manager's base dictionary itself, in which case
+`configure_settings` on that scenario (session / REST settings write `scenario.constants[k] = v` in place)
+rewrites the base values for every such sibling and for scenarios registered later.
 -/
 namespace Bptk.C07
 open Bptk.C06
@@ -23,9 +30,12 @@ open Bptk.C06
 structure Cfg where
   runspecStartApplied : Bool
   fileRunspecsKept : Bool
+  /-- `add_scenarios` / `load_scenarios`: a scenario dictionary without an own `constants` / `points` block
+  gets a fresh dictionary (true), or the manager's `base_constants` / `base_points` object itself (false) -/
+  scenarioOwnsDicts : Bool
 deriving DecidableEq, Repr
 
-def Cfg.good (c : Cfg) : Bool := c.runspecStartApplied && c.fileRunspecsKept
+def Cfg.good (c : Cfg) : Bool := c.runspecStartApplied && c.fileRunspecsKept && c.scenarioOwnsDicts
 
 /-- scenario-level settings -/
 structure Settings where
@@ -87,5 +97,79 @@ def over (newer older : Nat → Option Nat) (k : Nat) : Option Nat :=
 
 /-- last binding of `k` in a dictionary literal given as a list (a Python dict keeps the last) -/
 def lastOf (d : Store) (k : Nat) : Option Nat := Store.get d.reverse k
+
+/-! ### the manager with its scenarios: dictionary identity of the base values -/
+
+/-- a registered scenario: `cAlias` — `scenario.constants` IS the manager's `base_constants` object -/
+structure MScn where
+  cAlias : Bool
+  pAlias : Bool
+  consts : Store
+  pts : Store
+  rs : RunSpec
+deriving DecidableEq, Repr
+
+structure MState where
+  bc : Store                       -- manager.base_constants (the object, as it is now)
+  bp : Store                       -- manager.base_points
+  scns : Nat → Option MScn
+
+inductive MOp where
+  | add (i : Nat) (d : Dict)          -- register_scenarios({name_i: d}) / a scenario read from a file
+  | configure (i : Nat) (d : Dict)    -- settings supplied to scenario i (begin_session settings, REST /run settings)
+deriving Repr
+
+def MOp.addr : MOp → Nat
+  | .add i _ => i
+  | .configure i _ => i
+
+def mstep (c : Cfg) (mrs : RunSpec) (st : MState) : MOp → MState
+  | .add i d =>
+      let ca := !c.scenarioOwnsDicts && d.consts.isEmpty && !st.bc.isEmpty
+      let pa := !c.scenarioOwnsDicts && d.pts.isEmpty && !st.bp.isEmpty
+      let s : MScn := { cAlias := ca, pAlias := pa,
+                        consts := if ca then [] else Store.fill d.consts st.bc,
+                        pts := if pa then [] else Store.fill d.pts st.bp,
+                        rs := mrs.override d }
+      { st with scns := updFn st.scns i (some s) }
+  | .configure i d =>
+      match st.scns i with
+      | none => st
+      | some s =>
+          let s1 : MScn := { s with consts := if s.cAlias then s.consts else Store.update s.consts d.consts,
+                                    pts := if s.pAlias then s.pts else Store.update s.pts d.pts,
+                                    rs := s.rs.override d }
+          { bc := if s.cAlias then Store.update st.bc d.consts else st.bc,
+            bp := if s.pAlias then Store.update st.bp d.pts else st.bp,
+            scns := updFn st.scns i (some s1) }
+
+def MState.init (bc bp : Store) : MState := { bc := bc, bp := bp, scns := fun _ => none }
+
+def mexec (c : Cfg) (mrs : RunSpec) (bc bp : Store) (ops : List MOp) : MState :=
+  ops.foldl (mstep c mrs) (MState.init bc bp)
+
+/-- what scenario `i` carries (read through the aliases) -/
+def mview (st : MState) (i : Nat) : Option Settings :=
+  (st.scns i).map fun s =>
+    { consts := if s.cAlias then st.bc else s.consts, pts := if s.pAlias then st.bp else s.pts, rs := s.rs }
+
+/-- the reference: scenario `i` alone under a manager whose base values are `bc`, `bp` for ever -/
+def msoloStep (mrs : RunSpec) (bc bp : Store) (i : Nat) (s : Option Settings) : MOp → Option Settings
+  | .add j d => if j = i then some (resolveDict mrs bc bp d) else s
+  | .configure j d => if j = i then s.map (fun x => resolveSettings x d) else s
+
+def msolo (mrs : RunSpec) (bc bp : Store) (i : Nat) (ops : List MOp) : Option Settings :=
+  ops.foldl (msoloStep mrs bc bp i) none
+
+def emptyDict : Dict := { consts := [], pts := [], start := none, stop := none, dt := none }
+
+/-- last file (in reading order) that binds `k` decides: `__get_all_base_constants` as a function of the list -/
+def lastDef (p : FileEntry → Store) (fs : List FileEntry) (k : Nat) : Option Nat :=
+  match fs with
+  | [] => none
+  | f :: rest =>
+      match lastDef p rest k with
+      | some v => some v
+      | none => lastOf (p f) k
 
 end Bptk.C07
